@@ -60,6 +60,12 @@ def _rewraps_update(c, fl):
     text and key together."""
     pk = c.vprov(fl.get("key")) if fl.get("key") is not None else set()
     pm = c.vprov(fl.get("markdown")) | c.mentions(fl.get("markdown")) if fl.get("markdown") is not None else set()
+    if fl.get("markdown") is not None:
+        # `let markdown = graph.with_front_matter(&key, markdown);` - the text argument is what is re-wrapped
+        from .common import through_lets
+        for y in fb.walk(through_lets(c, fl["markdown"])):
+            if y.get("k") in ("mcall", "call") and (fb.callee(y) or "").endswith("Graph::with_front_matter") and y.get("args"):
+                pm |= c.vprov(y["args"][-1])
     from_update = lambda pv: any(a[0] in ("patpos", "pat") and "Update" in str(a[1]) for a in pv)
     return ("field", "key") in pk and ("field", "markdown") in pm and from_update(pk) and (from_update(pm) or ("field", "markdown") in pm)
 
